@@ -127,7 +127,8 @@ class Chain:
         # affine map of (i, i^2) into the space
         a = self.nzvec(-2, 2); b = self.nzvec(-2, 2)
         if self.dim >= 2:
-            while a[0] * b[1] - a[1] * b[0] == 0:
+            indep = lambda: any(a[i] * b[j] - a[j] * b[i] != 0 for i in range(self.dim) for j in range(i + 1, self.dim))
+            while not indep():
                 b = self.nzvec(-2, 2)
         o = [self.small() for _ in range(self.dim)]
         pt = lambda i: ("p", 1, [o[j] + a[j] * i + b[j] * i * i for j in range(self.dim)])
